@@ -8,6 +8,8 @@ state:
   * aux_data == type(obj)(obj.proj_data).aux_data row-projectively, and == the oracle's recomputation
     (mc/oracle/derived.py);
   * the primary rows are projectively the model's.
+The op "set-coords" re-sets the coordinates of the existing object through a model / affine-chart setter (every class with
+auxiliary data, integer-typed polygons included): the derived data must follow, objects derived earlier must not move.
 The op "queries" calls every read-only query and checks after each single call that the object's rows, the rows of
 every object passed as an argument and the arrays the caller supplied are projectively what they were.
 """
@@ -412,10 +414,11 @@ def setter_data(cls, how, arr):
     if how == "projective" or cls == "H.TangentVector":
         return arr.copy(), arr.copy()
     if how.startswith("affine"):
-        # the two standard-chart coordinates of the new rows, REINTERPRETED as coordinates in chart k (no division
-        # by a possibly tiny k-th coordinate): the expected row has 1.0 inserted at position k
+        # the two standard-chart coordinates (y, z) of the new rows, shifted to (y, z + 2.5) so that neither is ever
+        # near zero (|y| >= 0.11, z + 2.5 >= 1.6: the object stays inside every affine chart the queries ask for) and
+        # REINTERPRETED as coordinates in chart k: the expected row has 1.0 inserted at position k
         k = int(how[-1])
-        aff = arr[..., 1:].copy()
+        aff = arr[..., 1:] + np.array([0.0, 2.5])
         return aff, np.insert(aff, k, 1.0, axis=-1)
     kl = arr[..., 1:] / arr[..., :1]
     return np.array(hyp.klein_to(how, kl)), hyp.klein_to_projective(kl)
@@ -534,8 +537,10 @@ def case_hist(hist):
                 ret = call_setter(cls, obj, how, coords)
             if not np.array_equal(coords, snap):
                 v.append(V("inputs/set-coords-array/%s/%s" % (how, cls), "the setter changed the caller's coordinate array:\n%r\nwas\n%r" % (coords, snap)))
-            elif cls != "H.TangentVector" and how != "hyperboloid":
+            elif cls != "H.TangentVector" and how != "hyperboloid" and not (model.dtype.kind in "iu" and np.asarray(obj.proj_data).dtype.kind in "iu"):
                 # the setter returns the coordinates of the object in the same model / chart: what was handed in
+                # (not judged when an integer-typed object kept its integer type: the stored coordinates are then the
+                # converted ones, see below)
                 ret = np.asarray(ret)
                 if how == "projective":
                     bad = ret.shape != snap.shape or rows_err(ret, snap) > TOL
@@ -630,21 +635,30 @@ def case_hist(hist):
 def run(ctx):
     q = ctx.quick
     ctx.rule = ("histories of {construct-from-object, apply (2 single isometries, 1 composite), reshape, flatten_to_unit, [i], "
-                "[i]=unit, stack, combine, astype(complex128), queries} explored breadth-first on real objects against the "
+                "[i]=unit, stack, combine, astype(complex128), set-coords (the coordinates of the EXISTING object re-set through "
+                "coords(model, data) / projective_coords(data) / affine_coords(data, chart_index=k)), queries} explored breadth-first on real objects against the "
                 "expected primary data, de-duplicated on (class, shape, dtype, rounded projective rows of the model, rounded raw "
                 "representative of the real object); invariants evaluated in every state; non-trivial = at least one op")
     ctx.assume("objects live in H^2 / RP^2 with generic float coordinates (segments and polygon edges avoid the origin and the "
                "half-space point at infinity only generically; no value of a query is judged here, only what it leaves behind)")
     ctx.assume("in-place rescaling of rows by a query is allowed (property wording): all comparisons are row-projective")
     ctx.assume("the order in which a Segment stores its two ideal endpoints is not demanded")
+    ctx.assume("coordinate setters: polygons and segments in all five models, tangent vectors through the two raw R^(n,1) setters only (a (point, vector) "
+               "pair has no affine / conformal coordinates), segments with ideal endpoints through projective / Klein only, projective polygons through "
+               "projective_coords and the three affine charts; on an integer-typed object either dtype semantic (replace the array / convert the new "
+               "coordinates) is accepted for the primary data, the derived data must agree with whichever it is; states reached through the Klein, "
+               "Poincare and half-space setters from the same data coincide and are merged")
     ctx.assume("circle parameters are not requested from complex128 objects (angles of complex coordinates are undefined; the library raises TypeError from np.arctan2)")
     ctx.assume("the library's ComplexWarning casts on complex dtype are ignored (queries on complex128 objects are executed, their values not judged)")
     ctx.tolerances["projective rows"] = "sine of the angle between rows <= 1e-8 (coordinates <= ~10, measured errors <= 1e-13; stale data differs by >= 1e-2)"
-    roots = [[{"cls": c, "shape": s, "seed": ctx.seed}] for c in CLASSES for s in ([], [2], [2, 2])]
+    # histories starting from the (2, 2) roots of the four float classes do not use the coordinate setters (cost): objects of
+    # shape (2, 2) are re-set in the histories of the (2,) roots (stack, then set-coords) and of the integer (2, 2) root
+    roots = [[{"cls": c, "shape": s, "seed": ctx.seed, "setters": s != [2, 2]}] for c in CLASSES for s in ([], [2], [2, 2])]
     roots += [[{"cls": "H.Segment/ideal", "shape": s, "seed": ctx.seed}] for s in ([], [3])]
     roots += [[{"cls": "P.Polygon/int", "shape": s, "seed": ctx.seed}] for s in ([2], [2, 2])]
     ctx.bfs("object-histories", "checks.c11:case_hist", roots, depth=3 if q else 4, chunk=24,
             domains={"classes": CLASSES, "initial shapes": [[], [2], [2, 2]],
                      "extra class": "H.Segment/ideal = segments whose first endpoint is ideal (generic angle) and second interior or ideal",
                      "ops": "copy, apply x2, apply-composite (2,), apply-pairwise (2,), reshape to (N,),(1,N),(N,1),(2,N/2), flatten_to_unit, [0],[last], "
-                            "[0]=unit,[last]=unit, stack, combine, astype(complex128), queries (every read-only query, checked one by one)"})
+                            "[0]=unit,[last]=unit, stack, combine, astype(complex128), queries (every read-only query, checked one by one)",
+                     "set-coords": SETTERS, "set-coords enabled": "in all histories except those starting from the (2, 2) roots of the four float classes"})
